@@ -76,7 +76,7 @@ TEXTS = {
                 "terms of every record) then every term has in both the same parents, children, ancestor cache, three annotation sets and "
                 "information content; and observations accepted by spec_C16 are pairwise identical. The check builds every fact set in "
                 "three independent random orders (incl. leaf-first / root-first supplies of 36-90-term chains) with the real Builder and with "
-                "the model and demands identical canonical dumps.",
+                "the model and demands identical canonical dumps. ACROSS CONSTRUCTION PATHS (C16_constructed_ontologies_with_same_facts_agree): any two ontologies produced by public constructors (Builder, JAX loaders, from_bytes, sub_ontology, nested) that state the same direct facts agree term by term on all derived data.",
         "design_ref": "DESIGN.md §4 C16, §9", "note": NOTE_COMMON, "technique": TECH,
     },
     "C19": {
@@ -224,7 +224,7 @@ TEXTS = {
                 "spec_C11 compares every distance the crate reports with sd over the reported parent links, distance_to_term with the "
                 "minimum over common ancestors, and checks every reported path link by link (a walk of exactly the reported distance); the "
                 "transcription of the four queries is diffed against the crate on ALL ordered pairs of each generated ontology and on "
-                "selected pairs of 70-130-term chains. Not proved: that ontologies loaded from binary or JAX files are qgood (executed).",
+                "selected pairs of 70-130-term chains. Not proved: that ontologies loaded from binary or JAX files are qgood (executed). C11_constructed_ontologies_are_qgood: the hypothesis of all these theorems holds for every ontology produced by any public constructor.",
         "design_ref": "DESIGN.md §4 C11, §9", "note": NOTE_COMMON + "Acyclic inputs only. Paths compared for validity and length, not identity.", "technique": TECH,
     },
     "C13": {
